@@ -5,7 +5,8 @@ From TrV Require Export Journey.
 Local Open Scope Z_scope.
 
 Definition REBUILD_FUEL (d : data) : nat := (4 * (length (d_nodes d)) + 64)%nat.
-Definition OPT_FUEL (d : data) : nat := (8 * (length (d_nodes d)) + 4 * length (all_conns d) + 64)%nat.
+(* every rewrite iteration either ignores one more stop or strictly shortens the ridden segments *)
+Definition OPT_FUEL (d : data) : nat := (4 * (S (length (d_nodes d))) * (S (length (all_conns d))) + 64)%nat.
 
 (* the walking router is a table: rows offered for the origin and for the destination *)
 Record tables := { tb_acc : list fprow; tb_egr : list fprow }.
